@@ -115,7 +115,7 @@
 (assert (forall ((f Fuel) (a cty.Type) (b cty.Type) (c cty.Type)) (! (=> (and (ty_eqF f a b) (ty_eqF f b c)) (ty_eqF f a c)) :pattern ((ty_eqF f a b) (ty_eqF f b c)))))
 (define-fun ty_eq_tuple ((f Fuel) (a cty.Type) (b cty.Type)) Bool
   (and (= (tuple_len a) (tuple_len b))
-       (forall ((j Int)) (! (=> (and (<= (tuple_off a) j) (< j (+ (tuple_off a) (tuple_len a))))
+       (forall ((j Int)) (! (=> (and (trig j) (<= (tuple_off a) j) (< j (+ (tuple_off a) (tuple_len a))))
                               (ty_eqF f (select (tuple_arr a) j) (select (tuple_arr b) (+ (- j (tuple_off a)) (tuple_off b)))))
                            :pattern ((select (tuple_arr a) j))))))
 (define-fun ty_eq_obj ((f Fuel) (a cty.Type) (b cty.Type)) Bool
@@ -147,7 +147,7 @@
        (forall ((k String)) (! (=> (select (obj_dom t) k) (wf_tyF f (obj_aty t k))) :pattern ((select (obj_dom t) k))))))
 (define-fun wf_ty_tuple ((f Fuel) (t cty.Type)) Bool
   (and (slice.ok (tuple_sl t))
-       (forall ((j Int)) (! (=> (and (<= (tuple_off t) j) (< j (+ (tuple_off t) (tuple_len t)))) (wf_tyF f (select (tuple_arr t) j)))
+       (forall ((j Int)) (! (=> (and (trig j) (<= (tuple_off t) j) (< j (+ (tuple_off t) (tuple_len t)))) (wf_tyF f (select (tuple_arr t) j)))
                            :pattern ((select (tuple_arr t) j))))))
 (assert (forall ((f Fuel) (t cty.Type)) (! (= (wf_tyF (FS f) t)
     (or (is_prim_ty t) (is_dyn_ty t)
@@ -168,7 +168,7 @@
 (assert (forall ((f Fuel) (g cty.Type) (w cty.Type)) (! (= (conformsF (FS f) g w) (conformsF f g w)) :pattern ((conformsF (FS f) g w)))))
 (define-fun conforms_tuple ((f Fuel) (g cty.Type) (w cty.Type)) Bool
   (and (= (tuple_len g) (tuple_len w))
-       (forall ((j Int)) (! (=> (and (<= (tuple_off w) j) (< j (+ (tuple_off w) (tuple_len w))))
+       (forall ((j Int)) (! (=> (and (trig j) (<= (tuple_off w) j) (< j (+ (tuple_off w) (tuple_len w))))
                               (conformsF f (select (tuple_arr g) (+ (- j (tuple_off w)) (tuple_off g))) (select (tuple_arr w) j)))
                            :pattern ((select (tuple_arr w) j))))))
 (define-fun conforms_obj ((f Fuel) (g cty.Type) (w cty.Type)) Bool
@@ -192,7 +192,7 @@
 (assert (forall ((f Fuel) (t cty.Type)) (! (= (has_dynF (FS f) t)
     (or (is_dyn_ty t)
         (and (is_coll_ty t) (has_dynF f (elem_ty t)))
-        (and (is_tuple_ty t) (exists ((j Int)) (! (and (<= (tuple_off t) j) (< j (+ (tuple_off t) (tuple_len t))) (has_dynF f (select (tuple_arr t) j)))
+        (and (is_tuple_ty t) (exists ((j Int)) (! (and (trig j) (<= (tuple_off t) j) (< j (+ (tuple_off t) (tuple_len t))) (has_dynF f (select (tuple_arr t) j)))
                                                  :pattern ((select (tuple_arr t) j)))))
         (and (is_obj_ty t) (exists ((k String)) (! (and (select (obj_dom t) k) (has_dynF f (obj_aty t k))) :pattern ((select (obj_dom t) k)))))))
   :pattern ((has_dynF (FS f) t)))))
@@ -265,3 +265,44 @@
   (forall ((j Int)) (! (=> (and (trig j) (<= 0 j) (< j n))
      (let ((m (select (ite (< (Slice.ptr s) 0) (select ha (Slice.ptr s)) (select F.Arr<Int> (Slice.ptr s))) (+ (Slice.off s) j))))
        (and (>= m wm) (< m hi) (MapC<Any~Unit>.ok (ite (< m 0) (select hm m) (select F.MapC<Any~Unit> m)))))) :pattern ((trig j)))))
+
+; ---- values: shapes ----------------------------------------------------------------------------
+(define-fun vty ((v cty.Value)) cty.Type (cty.Value.ty v))
+; known, non-null, unmarked
+(define-fun plain ((v cty.Value)) Bool (and (not (is_marked v)) (is_known v) (not (is_null v))))
+(define-fun pl_seq ((v cty.Value)) Slice (unbox<<>Any> (inner_v v)))            ; list / tuple payload
+(define-fun pl_map ((v cty.Value)) Int (unbox<map<string>Any> (inner_v v)))      ; map / object payload
+(define-fun is_seq_payload ((v cty.Value)) Bool ((_ is box<<>Any>) (inner_v v)))
+(define-fun is_map_payload ((v cty.Value)) Bool ((_ is box<map<string>Any>) (inner_v v)))
+; all non-placeholder element types of vals[0..n) are equal
+(define-fun vals_consistent ((s Slice) (n Int)) Bool
+  (forall ((i Int) (j Int)) (! (=> (and (trig i) (trig j) (<= 0 i) (< i n) (<= 0 j) (< j n)
+                                     (not (is_dyn_ty (vty (vals_rel s i)))) (not (is_dyn_ty (vty (vals_rel s j)))))
+                                (ty_eq (vty (vals_rel s i)) (vty (vals_rel s j))))
+     :pattern ((trig i) (trig j)))))
+(define-fun vals_all_dyn ((s Slice) (n Int)) Bool
+  (forall ((j Int)) (! (=> (and (trig j) (<= 0 j) (< j n)) (is_dyn_ty (vty (vals_rel s j)))) :pattern ((trig j)))))
+(define-fun vals_some_ty ((s Slice) (n Int) (t cty.Type)) Bool
+  (exists ((j Int)) (! (and (trig j) (<= 0 j) (< j n) (= t (vty (vals_rel s j)))) :pattern ((trig j)))))
+; optional-attribute annotations somewhere inside a type
+(declare-fun has_optF (Fuel cty.Type) Bool)
+(define-fun has_opt ((t cty.Type)) Bool (has_optF (FS (FS FZ)) t))
+(assert (forall ((f Fuel) (t cty.Type)) (! (= (has_optF (FS f) t) (has_optF f t)) :pattern ((has_optF (FS f) t)))))
+(assert (forall ((f Fuel) (t cty.Type)) (! (= (has_optF (FS f) t)
+    (or (and (is_coll_ty t) (has_optF f (elem_ty t)))
+        (and (is_tuple_ty t) (exists ((j Int)) (! (and (trig j) (<= (tuple_off t) j) (< j (+ (tuple_off t) (tuple_len t))) (has_optF f (select (tuple_arr t) j)))
+                                                 :pattern ((select (tuple_arr t) j)))))
+        (and (is_obj_ty t) (or (not (= (obj_opt t) empty<String>))
+                               (exists ((k String)) (! (and (select (obj_dom t) k) (has_optF f (obj_aty t k))) :pattern ((select (obj_dom t) k))))))))
+  :pattern ((has_optF (FS f) t)))))
+; membership in one of the first n mark sets of a slice that may still live in the current heaps
+(define-fun in_any_markset_h ((ha (Array Int (Array Int Int))) (hm (Array Int MapC<Any~Unit>)) (s Slice) (n Int) (k Any)) Bool
+  (exists ((j Int)) (! (and (trig j) (<= 0 j) (< j n)
+     (let ((m (select (ite (< (Slice.ptr s) 0) (select ha (Slice.ptr s)) (select F.Arr<Int> (Slice.ptr s))) (+ (Slice.off s) j))))
+       (select (MapC<Any~Unit>.dom (ite (< m 0) (select hm m) (select F.MapC<Any~Unit> m))) k))) :pattern ((trig j)))))
+; the mark set d is one of the first n mark sets of the slice (current heaps), or is empty
+(define-fun markset_collected ((ha (Array Int (Array Int Int))) (hm (Array Int MapC<Any~Unit>)) (s Slice) (n Int) (d (Array Any Bool))) Bool
+  (or (= d empty<Any>)
+      (exists ((j Int)) (! (and (trig j) (<= 0 j) (< j n)
+         (let ((m (select (ite (< (Slice.ptr s) 0) (select ha (Slice.ptr s)) (select F.Arr<Int> (Slice.ptr s))) (+ (Slice.off s) j))))
+           (= (MapC<Any~Unit>.dom (ite (< m 0) (select hm m) (select F.MapC<Any~Unit> m))) d))) :pattern ((trig j))))))
